@@ -8,7 +8,7 @@
    is empty, so every queue item of that stream (all of them were published before the socket item was
    written) has been delivered; each transport is FIFO (MuxProofs). *)
 From Coq Require Import List ZArith Lia Bool Arith Permutation.
-From Shm Require Import Gen.Consts Model.Wakeup Model.Mux Proofs.WakeupProofs Proofs.MuxProofs.
+From Shm Require Import Gen.Consts Gen.SwitchC07 Model.Wakeup Model.Mux Proofs.WakeupProofs Proofs.MuxProofs.
 Import ListNotations.
 Open Scope nat_scope.
 
@@ -139,9 +139,17 @@ Proof.
   intros H j E. unfold fS in *. rewrite <- (m_fs st H), filter_app in E. apply app_eq_nil in E. tauto.
 Qed.
 
+(* THE POINT AT WHICH THE ORDER THEOREM DEPENDS ON THE SOURCE: Stream.Flush only ever sets inFallbackState
+   (Gen/SwitchC07.v is regenerated from stream.go on every run; if Flush assigns the flag from the current
+   buffer instead, this lemma — and with it C07_order — no longer compiles, and unsticky_refutes_order below
+   shows the statement is then false). *)
+Lemma sw_sticky : sw_fallback_sticky = true.
+Proof. reflexivity. Qed.
+
 Lemma oxs_pstep i st : MInv st -> OXs st -> OXs (mpstep i st).
 Proof.
-  intros HM H. pose proof (sub_ok st HM) as Hsub. pose proof H as H'. unfold OXs in H'. unfold mpstep.
+  intros HM H. pose proof (sub_ok st HM) as Hsub. pose proof H as H'. unfold OXs in H'.
+  unfold mpstep, mpstep_g. rewrite sw_sticky. cbn [andb].
   destruct (nth_error (mprods st) i) as [p|] eqn:Hp; auto.
   destruct (mpc_ p) eqn:Epc.
   - (* MIdle *)
@@ -197,12 +205,12 @@ Qed.
 Lemma ostep st w : OInv st -> OInv (mstep st w).
 Proof.
   intros [HM HX]. constructor; [apply mstep_inv; exact HM|].
-  destruct w; simpl; [apply oxs_pstep | apply oxs_cstep | apply oxs_sstep]; auto.
+  destruct w; unfold mstep, mstep_g; [apply oxs_pstep | apply oxs_cstep | apply oxs_sstep]; auto.
 Qed.
 
 Theorem orun progs sched : OInv (mrun sched (minit progs)).
 Proof.
-  unfold mrun. generalize (oinit progs). generalize (minit progs).
+  unfold mrun, mrun_g. generalize (oinit progs). generalize (minit progs).
   induction sched as [|w r IH]; simpl; intros st H; auto. apply IH, ostep, H.
 Qed.
 
@@ -251,6 +259,28 @@ Qed.
 (* THE THEOREM: the order statement at full strength *)
 Theorem order_holds : order_full.
 Proof. intros progs sched s. apply oinv_ordered, orun. Qed.
+
+(* ---------- what the theorem depends on: a fallback flag that is not sticky refutes it ---------- *)
+(* one stream: m0 through the queue (polling event written, not yet handled), shared memory exhausted: m1
+   through the socket, shared memory recovers: with a non-sticky flag m2 goes through the queue again
+   (markWorking fails: the flag is still up) and the consumer, handling the polling event, delivers m0, m2
+   before it reaches m1 on the socket.  With the sticky flag of the code that exists the same schedule
+   delivers m0, m1, m2. *)
+Definition wit_u_progs := [[OFlush true false; OFlush false false; OFlush true false]].
+Definition wit_u_sched := rP 0 6 ++ rP 0 1 ++ rS 4 ++ rP 0 1 ++ rP 0 2 ++ rC 40 ++ rS 5 ++ rP 0 1 ++ rC 20.
+Lemma unsticky_run :
+  (let st := mrun_g false wit_u_sched (minit wit_u_progs) in
+   seen 0 st = [DData 0; DData 2; DData 1] /\ sent 0 st = [DData 0; DData 1; DData 2] /\
+   map snd (flog st) = [VQ; VS; VQ] /\ ordered 0 st = false) /\
+  (let st := mrun_g true wit_u_sched (minit wit_u_progs) in
+   seen 0 st = [DData 0; DData 1; DData 2] /\ map snd (flog st) = [VQ; VS; VS] /\ ordered 0 st = true).
+Proof. vm_compute. repeat split. Qed.
+Theorem unsticky_refutes_order :
+  ~ (forall progs sched s, ordered s (mrun_g false sched (minit progs)) = true).
+Proof.
+  intros H. assert (E : ordered 0 (mrun_g false wit_u_sched (minit wit_u_progs)) = false) by (vm_compute; reflexivity).
+  rewrite (H wit_u_progs wit_u_sched 0) in E. discriminate E.
+Qed.
 
 (* ---------- callback mode: the end-of-stream clause is false (Model/MuxCallback.v) ---------- *)
 From Shm Require Import Model.MuxCallback.
